@@ -42,8 +42,19 @@ let do_fjclass (txt : string) : string =
      | _ -> "REJECT")
   | _ -> "PARSE-ERR"
 
+(* initlin: does the accepted closed program satisfy init_linear (proofs/InitLinear.v), the static
+   premise of determinism_typed_core? *)
+let do_initlin (txt : string) : string =
+  match parse_string (explode txt) with
+  | POk p ->
+    (match typecheck p with
+     | Accept p' -> if in_fragment_b p' && init_linear_b p' then "LIN-IN" else "LIN-OUT"
+     | _ -> "REJECT")
+  | _ -> "PARSE-ERR"
+
 let () =
   register "fjclass" do_fjclass;
+  register "initlin" do_initlin;
   List.iter (fun (nm, md) ->
       List.iter (fun seed -> register (Printf.sprintf "compat-%s-%d" nm seed) (do_compat md seed)) [0; 1; 2; 3; 4; 5; 6; 7])
     [("async", Async); ("sync", Sync)]
